@@ -75,6 +75,14 @@ func ruleFIELD1(c *Ctx) {
 						found = true
 					}
 				}
+				// or a private helper of that function reads it (extract-method)
+				if wf := p.Func(fn); wf != nil && !found {
+					for _, g := range p.CalleeClosure(wf, 2) {
+						if readers[fld][g.Name] {
+							found = true
+						}
+					}
+				}
 				if !found {
 					miss = append(miss, fn)
 				}
@@ -177,6 +185,16 @@ func ruleFIELD1(c *Ctx) {
 	if f := p.Func("json.makeStructArshaler:unmarshal"); f == nil {
 		c.Undecide("json.makeStructArshaler:unmarshal", "closure missing")
 	} else {
+		// the two lookups may live together in a private helper of the closure (extract-method)
+		outer := f
+		p.InspectScope(outer, func(g *FuncInfo, nd ast.Node) bool {
+			if call, ok := nd.(*ast.CallExpr); ok {
+				if cf := Callee(g.Info(), call); cf != nil && cf.Name() == "lookupByFoldedName" {
+					f = g
+				}
+			}
+			return true
+		})
 		info := f.Info()
 		var exactPos, foldPos token.Pos
 		InspectNoLit(f.Body(), func(nd ast.Node) bool {
@@ -193,28 +211,65 @@ func ruleFIELD1(c *Ctx) {
 			return true
 		})
 		okOrder := exactPos != token.NoPos && foldPos != token.NoPos && exactPos < foldPos
-		// the folded lookup must be inside `if f == nil` of the exact lookup result
+		// path-sensitively: wherever the folded index is consulted, the exact lookup's result is known to be nil
 		if okOrder {
-			okOrder = false
-			for _, call := range findAll[*ast.CallExpr](f.Body()) {
-				if cf := Callee(info, call); cf != nil && cf.Name() == "lookupByFoldedName" {
-					for _, cc := range enclosingConds(p, f, call) {
-						if be, ok := ast.Unparen(cc.cond).(*ast.BinaryExpr); ok && be.Op == token.EQL && IsNilIdent(info, be.Y) && cc.then {
-							if v := IdentObj(info, be.X); v != nil {
-								for _, d := range defsOf(info, f.Body(), v) {
-									if ix, ok := ast.Unparen(d).(*ast.IndexExpr); ok {
-										if fld := SelField(info, ix.X); fld != nil && fld.Name() == "byActualName" {
-											okOrder = true
-										}
-									}
-								}
-							}
+			type st struct{ exactNil tri }
+			var exactVar types.Object
+			nFold, bad := 0, false
+			fl := &Flow[st]{Fn: f}
+			isExact := func(e ast.Expr) bool {
+				if ix, ok := ast.Unparen(e).(*ast.IndexExpr); ok {
+					if fld := SelField(info, ix.X); fld != nil && fld.Name() == "byActualName" {
+						return true
+					}
+				}
+				return false
+			}
+			visitCalls := func(n ast.Node, s st) {
+				for _, call := range CallsIn(n) {
+					if cf := Callee(info, call); cf != nil && cf.Name() == "lookupByFoldedName" {
+						nFold++
+						if s.exactNil != triYes {
+							bad = true
 						}
 					}
 				}
 			}
+			fl.Node = func(n ast.Node, s st) []st {
+				if as, ok := n.(*ast.AssignStmt); ok && len(as.Lhs) == len(as.Rhs) {
+					for i, r := range as.Rhs {
+						if isExact(r) {
+							exactVar = IdentObj(info, as.Lhs[i])
+							s.exactNil = triUnknown
+						}
+					}
+				}
+				if rs, ok := n.(*ast.RangeStmt); ok {
+					visitCalls(rs.X, s)
+					return []st{s}
+				}
+				visitCalls(n, s)
+				if _, ok := n.(*ast.ReturnStmt); ok {
+					return nil
+				}
+				return []st{s}
+			}
+			fl.Leaf = func(e ast.Expr, s st) (t, fs []st) {
+				visitCalls(e, s)
+				if be, ok := ast.Unparen(e).(*ast.BinaryExpr); ok && (be.Op == token.EQL || be.Op == token.NEQ) && IsNilIdent(info, be.Y) && exactVar != nil && IdentObj(info, be.X) == exactVar {
+					if be.Op == token.EQL {
+						return []st{{triYes}}, []st{{triNo}}
+					}
+					return []st{{triNo}}, []st{{triYes}}
+				}
+				return []st{s}, []st{s}
+			}
+			fl.Run(st{})
+			okOrder = nFold > 0 && !bad
 		}
-		c.Oblige("unmarshal:exact-name-first", f.Pos(), okOrder, "the folded-name index is consulted before (or regardless of) the exact-name index")
+		c.Oblige("unmarshal:exact-name-first", outer.Pos(), okOrder, "the folded-name index is consulted before (or regardless of) the exact-name index")
+		f = outer
+		info = f.Info()
 		ambiguous, unknownGuard := false, false
 		for _, call := range findAll[*ast.CallExpr](f.Body()) {
 			for _, a := range call.Args {
